@@ -1,0 +1,83 @@
+//go:build verif
+
+// Contracts for package v2, checked by /verif/govc (comment-only; not part of any normal build).
+
+package v2
+
+// Collaborators (interfaces / other packages): ASSUMED not to modify memory visible to the handler.
+//@ func (dag.State).*
+//@   trusted
+//@   benign
+//@ func (dag.State).GetTransaction
+//@   trusted
+//@   benign
+//@   ensures isNilIface(result.1) ==> !isNilIface(result.0)
+//@ func (grpc.Connection).Send
+//@   trusted
+//@   benign
+//@ func (grpc.Connection).Peer
+//@   trusted
+//@   pure
+//@ func (transport.Peer).ToFields
+//@   trusted
+//@   pure
+//@ func (dag.Notifier).*
+//@   trusted
+//@   benign
+//@ func (dag.Transaction).*
+//@   trusted
+//@   pure
+//@ func (dag.PAL).Contains
+//@   trusted
+//@   pure
+//@ func (*Envelope).*
+//@   trusted
+//@   pure
+//@ func conversationID.*
+//@   trusted
+//@   pure
+//@ func (conversationID).*
+//@   trusted
+//@   pure
+
+// ---- C15: a private payload leaves the node only towards an authenticated participant ----
+
+//@ func (*protocol).decryptPAL
+//@   prop C15
+//@   assume-benign
+
+// The dispatcher (protocol.handle) selects the handler by the dynamic type of envelope.Message and
+// protobuf decoding never leaves the selected oneof member nil: stated as a precondition.
+//@ func (*protocol).handleTransactionPayloadQuery
+//@   prop C15 C19
+//@   safety
+//@   requires envelope.GetTransactionPayloadQuery() != nil
+//@   call (grpc.Connection).Send #* requires [payload-only-to-authenticated-listed-peer]
+//@        ( arg(2).(*Envelope).Message == isEnvelope_Message(emptyResponse) && emptyResponse.TransactionPayload != nil && emptyResponse.TransactionPayload.Data == nil )
+//@     || ( isNilIface(ret(call (dag.State).GetTransaction #1).1) && tx == ret(call (dag.State).GetTransaction #1).0
+//@          && ( len(tx.PAL()) == 0
+//@               || ( peer.Authenticated
+//@                    && did(call (*protocol).decryptPAL #1) && isNilIface(ret(call (*protocol).decryptPAL #1).1)
+//@                    && ret(call (*protocol).decryptPAL #1).0 != nil
+//@                    && did(call (dag.PAL).Contains #1) && ret(call (dag.PAL).Contains #1) == true
+//@                    && arg(call (dag.PAL).Contains #1, 0) == ret(call (*protocol).decryptPAL #1).0
+//@                    && same(arg(call (dag.PAL).Contains #1, 1), peer.NodeDID) ) ) )
+//@   cover call (grpc.Connection).Send #6
+
+//@ func (*protocol).handleTransactionPayload
+//@   prop C15 C19
+//@   safety
+//@   requires envelope.GetTransactionPayload() != nil
+//@   nullable privatePayloadReceiver
+//@   call (dag.State).WritePayload #1 requires [payload-matches-a-known-transaction]
+//@        isNilIface(ret(call (dag.State).GetTransaction #1).1) && tx == ret(call (dag.State).GetTransaction #1).0 && arg(2) == tx
+//@     && did(call (hash.SHA256Hash).Equals #1) && ret(call (hash.SHA256Hash).Equals #1) == true
+//@     && same(arg(call (hash.SHA256Hash).Equals #1, 0), tx.PayloadHash()) && same(arg(call (hash.SHA256Hash).Equals #1, 1), payloadHash)
+//@     && same(payloadHash, ret(call hash.SHA256Sum #1)) && arg(call hash.SHA256Sum #1, 0) == msg.Data && arg(4) == msg.Data && same(arg(3), payloadHash)
+
+// A transaction with a participant list never carries its payload in a transaction list.
+//@ func (*protocol).collectTransactionList
+//@   prop C15 C19
+//@   safety
+//@   requires forall k int :: 0 <= k && k < len(txs) ==> !isNilIface(txs[k])
+//@   call (dag.State).ReadPayload #1 requires [payload-read-only-for-public-transactions] len(transaction.PAL()) == 0 && same(arg(2), transaction.PayloadHash())
